@@ -64,7 +64,8 @@ func (d *driver) replayOf(e *Exchange, ci crashInfo) map[string]any {
 		"listener": e.Seed.Listener, "seed": e.Seed.Name, "transport": e.Seed.Transport, "port_index": e.Seed.Port,
 		"mutation": e.Mut.String(), "exchange_id": e.ID, "messages": msgs, "then": "half-close / close",
 		"crash": ci.Text, "exit": ci.Exit,
-		"how": "start the harness binary with -worker -base <port> -dir <tmpdir>, send the messages in order to 127.0.0.1:<port+port_index>",
+		"how": "start the harness binary with -worker -base <port> -dir <tmpdir>, send the messages in order to 127.0.0.1:<port+port_index>" +
+			map[bool]string{true: "; SRT: bytes 44..47 of the conclusion are replaced by the cookie of the server's induction answer before the mutation is applied", false: ""}[e.Seed.Transport == tSRT],
 	}
 }
 
@@ -144,6 +145,18 @@ func (l *lane) runSet(set []*Exchange, o execOpts, count bool) bool {
 	var wg sync.WaitGroup
 	sem := make(chan struct{}, 384)
 	udpLike := false
+	var cmu sync.Mutex
+	local := map[string]int{}
+	defer func() {
+		// answer classes are only kept for sets the worker survived (the others are delivered again)
+		if count && w.alive() {
+			l.d.mu.Lock()
+			for k, n := range local {
+				l.d.classes[k] += n
+			}
+			l.d.mu.Unlock()
+		}
+	}()
 	for _, e := range set {
 		if !w.alive() {
 			break
@@ -158,9 +171,9 @@ func (l *lane) runSet(set []*Exchange, o execOpts, count bool) bool {
 			defer func() { <-sem }()
 			cl := runExchange(e, w.ports, o)
 			if count {
-				l.d.mu.Lock()
-				l.d.classes[e.Seed.Listener+"|"+e.Seed.Name+"|"+mutNames[e.Mut.Kind]+"|"+cl]++
-				l.d.mu.Unlock()
+				cmu.Lock()
+				local[e.Seed.Listener+"|"+e.Seed.Name+"|"+mutNames[e.Mut.Kind]+"|"+cl]++
+				cmu.Unlock()
 			}
 		}(e)
 	}
